@@ -96,6 +96,9 @@ def run(tier, seed, broken_proof=False):
             break
         b = pool_[bool(ext)].pop()
         n = b["n"]
+        if rng.random() < 0.4:
+            ks = rng.sample(range(0, 3 * len(b["base"]) + 4), len(b["base"]))
+            b = dict(b, base=[(ks[j], x, y) for j, (_, x, y) in enumerate(b["base"])])
         nf = rng.choice([0, 0, 1, 2])
         facts = [gen_formula(rng, n, 1, 0.05) if rng.random() < 0.5 else gen_lit(rng, n) for _ in range(nf)]
         c = {"id": "z%d" % i, "n": n, "sig": b["sig"], "base": b["base"], "facts": facts, "ext": ext, "ops": []}
